@@ -393,8 +393,32 @@ func suiteHostile(o *suiteOut, r *rng, tier string, n int) {
 	}
 	for _, d := range depths {
 		for _, tail := range []string{" bind", " exec", " dup bind exec", " pop"} {
+			if d > 3000 {
+				// too deep to render: only the outcome class is observed (no panic, no abort, no hang)
+				line := fmt.Sprintf("deep %d %s", d, hx([]byte(tail)))
+				os.WriteFile(p.cur, []byte(line), 0o644)
+				class := func() (cl string) {
+					defer func() {
+						if r := recover(); r != nil {
+							cl = "panic:" + fmt.Sprint(r)
+						}
+					}()
+					intp := postscript.NewInterpreter()
+					intp.MaxOps = 20000
+					return errClass(intp.ExecuteString(deepNest(d, tail)))
+				}()
+				if strings.HasPrefix(class, "panic") {
+					o.fail("C01", "no panic", line, "result or error value", class)
+				}
+				o.emit(line, "skip", true)
+				o.count("deeply nested procedures (outcome only)")
+				continue
+			}
 			p.run(20000, false, deepNest(d, tail))
 			o.count("deeply nested procedures")
+		}
+		if d > 3000 {
+			continue
 		}
 		p.run(20000, false, strings.Repeat("[", d)+strings.Repeat("]", d))
 		p.run(20000, false, strings.Repeat("<<", d))
